@@ -149,4 +149,16 @@ ENTRIES = {
             "re-taken after each operation, and derived sub-diagrams are compared with the documented edge set.",
             "Quick tier: 3-class models carry <=1 relation field per class and two hand-over orders; unions other than Optional not generated.",
             "DESIGN.md section 3 C17"),
+    "C06": ("exploration",
+            "exhaustive enumeration of generated dataclass models through the real ORMatic pipeline, mapper inspection vs an independent annotation reading",
+            "7670 models (thorough 40k) with <=3 classes from the documented modelling grammar - rotating scalar blocks incl. one without "
+            "any builtin field and one with only Optional scalars, relation fields X / Optional[X] / List[X] to every class incl. "
+            "itself, two relation fields per class incl. two collections of one target, every inheritance forest, both hand-over "
+            "orders - go through ClassDiagram -> ORMatic -> Jinja; the generated module must import, configure_mappers() and "
+            "create_all() must succeed, there must be exactly one DAO per class with the right original class and base chain, "
+            "a column (JSON for lists of builtins) or a relationship with the right target DAO and uselist for every public "
+            "field, nothing for private fields, nothing extra, and a second generation must give byte-identical text.",
+            "The black formatting pass is skipped for the bulk and exercised on every 97th model (AST-compared). SQLite / SQLAlchemy 2.0. "
+            "Quick tier: 3-class models carry <=1 relation field per class.",
+            "DESIGN.md section 3 C06"),
 }
